@@ -26,6 +26,16 @@
      (mesh equal up to attribute order).  Checked on every generated case by Check/C04.v ([mesh_eqb] ignores order).
    * ASCII only: the configuration writes at least one vertex property when n >= 1 (otherwise known finding
      ply:ascii-vertex-without-properties: [ascii_ok] cannot hold, the encodings really disagree).
+   * User-named attributes: [wf_mesh] requires their PLY property names (name, or name_k for vectors) to be pairwise
+     distinct and OUTSIDE the reader's reserved component names ([reserved_names]: x y z px .. s t red .. rot_3);
+     that is the hypothesis of [ply_readers_default_user].  A reserved name is claimed by the reader exactly when its
+     whole group is present in the file with one type (PlyRead.accepted; colour groups also without alpha) — then the
+     values come back as that group's attribute — and otherwise stays a scalar attribute under its own name ("t"
+     without "s", "alpha" without the colours, "px", "scale_0", "X").  Those meshes are inside
+     [ply_roundtrip_any_table] (its [readers_ok] side condition is decidable and computed for any concrete mesh) but not
+     inside the [wf_mesh] theorems; [ply_lone_member_example] evaluates one, and Check/C04.v generates the class
+     (lone members, complete groups spelled as user scalars, suffixed vectors such as rot x 4, case variants) and
+     judges it with an oracle that locates every property from the written file's own header.
    Custom writer tables: the same statement holds for ANY table under decidable side conditions
    ([ply_roundtrip_any_table]: the reader builds the laid-out readers, attribute keys distinct, values storable);
    the 8-bit scalar case is refuted ([ascii_uchar_scalar_refuted], known finding ply:ascii-uchar-scalar-raw). *)
@@ -345,4 +355,27 @@ Example ply_example :
   forallb (fun f => match write default_opts f m, expected default_opts m with
                     | Ok file, Ok r => match read_mesh file with Ok r' => mesh_eqb r r' | Err _ => false end
                     | _, _ => false end) [ASCII; BinLE; BinBE] = true.
+Proof. vm_compute. split; reflexivity. Qed.
+
+(* user scalars named like lone members of the reader's groups stay scalar attributes; a complete group spelled as user
+   scalars (r g b) comes back as that group's attribute — in all three encodings *)
+Example ply_lone_member_example :
+  let m := {| w_topo := TPoint; w_idx := [0; 1]%nat; w_n := 2%nat;
+              w_attrs := [ {| wa_dim := 3; wa_name := "Position"; wa_rows := [[1065353216; 0; 0]; [0; 1065353216; 0]] |};
+                           {| wa_dim := 1; wa_name := "alpha"; wa_rows := [[1048576000]; [1073741824]] |};
+                           {| wa_dim := 1; wa_name := "b"; wa_rows := [[1061158912]; [1048576000]] |};
+                           {| wa_dim := 1; wa_name := "g"; wa_rows := [[1056964608]; [0]] |};
+                           {| wa_dim := 1; wa_name := "r"; wa_rows := [[1040187392]; [1065353216]] |};
+                           {| wa_dim := 1; wa_name := "t"; wa_rows := [[1056964608]; [3212836864]] |} ] |} in
+  wf_mesh m = false /\
+  forallb (fun f => match write default_opts f m with
+                    | Ok file => match read_mesh file with
+                                 | Ok r => rows_eqb (match get_attr 1 "t" (m_attrs r) with Some d => d | None => [] end)
+                                                    [[cvF 1056964608]; [cvF 3212836864]]
+                                           && rows_eqb (match get_attr 1 "alpha" (m_attrs r) with Some d => d | None => [] end)
+                                                       [[cvF 1048576000]; [cvF 1073741824]]
+                                           && rows_eqb (match get_attr 3 "Color" (m_attrs r) with Some d => d | None => [] end)
+                                                       [[cvF 1040187392; cvF 1056964608; cvF 1061158912]; [cvF 1065353216; cvF 0; cvF 1048576000]]
+                                 | Err _ => false end
+                    | Err _ => false end) [ASCII; BinLE; BinBE] = true.
 Proof. vm_compute. split; reflexivity. Qed.
